@@ -570,7 +570,7 @@ func (w *world) tamperCookie(n string, kind int, rng *mrand.Rand) {
 		w.rec(M{"op": "jar", "edit": "bad", "name": short})
 	case k == 6: // value of another cookie name of the same jar (renamed cookie)
 		m := names[rng.Intn(len(names))]
-		if m != n {
+		if m != n && j[m] != j[n] && !w.emitted[n+"="+j[m]] { // (a value the deployment itself issued under this name is not a damaged one, however it got here)
 			j[n] = j[m]
 			w.rec(M{"op": "jar", "edit": "bad", "name": short})
 		}
